@@ -61,7 +61,8 @@ ASSUMPTIONS = [
     "forward round-off budget (sum over stages of ulp(max(|value|,|declared constants|)) x downstream derivative); "
     "constant stretches (saturation) are accepted as non-decreasing",
     "round trips use DESIGN §5: tol = K ulp(f(x))/|f'(x)| + K ulp(x), K=256, with the specification's derivative; "
-    "ulp(f(x)) is taken at max(|f(x)|, |declared bounds/shift|) because the value passes through lower + width*y; for a "
+    "ulp(f(x)) is taken at max(|f(x)|, |lower bound or shift|) because the value passes through lower + width*y (for the "
+    "harness-defined algebraic sigmoid, whose 1+r cancels, at max(|f(x)|, |both bounds|)); for a "
     "chain the terms of all stages are summed with the chain rule; points with tol > 0.1 (1+|x|) are skipped "
     "('wherever the inverse is representable'); forward(inverse(y)) uses the mirrored rule in y",
     "XLA's CPU code flushes subnormal numbers to zero, so every ulp in the tolerances is floored at the smallest normal "
@@ -117,7 +118,11 @@ class Stage:
         if k == "sigmoid":
             self.a, self.b = float(d["lo"]), float(d["hi"])
             self.lo, self.hi = self.a, self.b
-            self.magb = max(abs(self.a), abs(self.b))
+            # lower + width*s: the rounding error is one ulp of max(|lower|, |width*s|, |result|) <= 2 max(|lower|, |result|); the
+            # upper bound only matters where the result is close to it (then |result| ~ |upper| anyway).  With lower == 0 the
+            # forward value keeps its RELATIVE precision down to the smallest normal number, so the inverse is representable
+            # (and demanded) in the whole lower tail (seeded change S51).
+            self.magb = abs(self.a)
             self.lip = (self.b - self.a) / 4
         elif k == "softplus":
             self.a = float(d["lo"])
